@@ -137,6 +137,13 @@ func (g *Gen) randToks(cfg *batchCfg, docFields []string, composite bool) ([]Tok
 				if g.chance(0.05) {
 					l.Start = 70000 + g.r.Intn(100000)
 				}
+				if g.chance(0.02) {
+					// values that need the longest varints
+					l.Pos = 1<<40 + g.r.Intn(1000)
+					l.Start = 1<<62 + g.r.Intn(1000)
+					l.End = 1<<63 - 1 - g.r.Intn(1000)
+					l.AP = append(l.AP, ^uint64(0), 1<<32)
+				}
 				t.Locs = append(t.Locs, l)
 			}
 		}
